@@ -201,6 +201,7 @@ type Engine struct {
 	NoValidate  bool
 	callDepth   int
 	splitSeq    int
+	MaxFailures int // stop the job after this many counterexamples outside known findings (0 = never)
 	Deadline    time.Time
 	axioms      map[string]bool
 }
@@ -337,6 +338,9 @@ func (e *Engine) checkOverflow(st *State, where string) {
 }
 
 func (e *Engine) fail(st *State, kind, msg string) {
+	if kind == "panic" {
+		defer e.enough()
+	}
 	if len(st.pc) > 0 {
 		r := e.S.Check(st.pc, nil)
 		if r == Unsat {
